@@ -136,17 +136,17 @@ def run(ctx):
                     cur = list(blk)
                     how = rng.choice(["self-list", "self-reversed", "self-generator", "self-iter-block", "self-plus-one"])
                     if how == "self-list":
-                        offered, values = [(o, [Sym("t"), ids.get(id(o), -1), n]) for o in cur], blk.tracks
+                        offered, values = [(o, [Sym("t"), ids.get(id(o), 999999), n]) for o in cur], blk.tracks
                     elif how == "self-reversed":
-                        offered, values = [(o, [Sym("t"), ids.get(id(o), -1), n]) for o in cur[::-1]], reversed(blk.tracks)
+                        offered, values = [(o, [Sym("t"), ids.get(id(o), 999999), n]) for o in cur[::-1]], reversed(blk.tracks)
                     elif how == "self-generator":
                         keep = [o for k, o in enumerate(cur) if k % 2 == 0]
-                        offered, values = [(o, [Sym("t"), ids.get(id(o), -1), n]) for o in keep], (o for k, o in enumerate(blk.tracks) if k % 2 == 0)
+                        offered, values = [(o, [Sym("t"), ids.get(id(o), 999999), n]) for o in keep], (o for k, o in enumerate(blk.tracks) if k % 2 == 0)
                     elif how == "self-iter-block":
-                        offered, values = [(o, [Sym("t"), ids.get(id(o), -1), n]) for o in cur], iter(blk)
+                        offered, values = [(o, [Sym("t"), ids.get(id(o), 999999), n]) for o in cur], iter(blk)
                     else:
                         extra = gen_offered(kind, n, rng, ids)
-                        offered = [(o, [Sym("t"), ids.get(id(o), -1), n]) for o in cur] + [extra]
+                        offered = [(o, [Sym("t"), ids.get(id(o), 999999), n]) for o in cur] + [extra]
                         values = (o for o in list(blk.tracks) + [extra[0]])
                     objs = [o for o, _ in offered]
                     oneshot = how
